@@ -105,11 +105,15 @@ def gen_program(specs, idx):
 		}
 		{
 			// the value is read through a pointer, the pointee changes, then the old value is passed
+			// (no call between the read and the C call: everything else is computed beforehand)
 			glob_%(n)s = gmk_%(n)s(5)
 			p := &glob_%(n)s
+			nv := gmk_%(n)s(7).%(first)s
+			want := gsum_%(n)s(s)
 			old := *p
-			p.%(first)s = gmk_%(n)s(7).%(first)s
-			if got, want := recv_%(n)s(old), gsum_%(n)s(s); got != want {
+			p.%(first)s = nv
+			got := recv_%(n)s(old)
+			if got != want {
 				bad += " loadmut:" + itoa(got) + "/" + itoa(want)
 			}
 		}
